@@ -659,3 +659,11 @@ def stored_depth_siblings(rng, n_parents, points=DEPTH_POINTS, nest=3):
             focus.append(db.add(ORD, rand_bits(rng, rng.choice([0, 1, 8, 500])), refs))
         gen[focus[-1]] = 1 + max(gen.get(r, 0) for r in refs)
     return db.nodes, focus
+
+
+def sibling_relation(depths):
+    """byte relation of the deepest sibling to the others: '><' if some sibling has a larger low byte than the deepest one (the bytes
+    cross), else the relation to the next deepest ('==' = the maximum occurs twice)"""
+    ds = sorted(depths, reverse=True)
+    rels = [byte_relation(ds[0], d) for d in ds[1:]]
+    return '><' if '><' in rels else rels[0]
